@@ -25,6 +25,7 @@ fn main() {
             "--tier" => { opts.thorough = args[i + 1] == "thorough"; i += 1; }
             "--seed" => { opts.seed = args[i + 1].parse().unwrap_or(1); i += 1; }
             "--out" => { opts.out = PathBuf::from(&args[i + 1]); i += 1; }
+            "--only" => { i += 1; }
             "--replay" => { opts.replay = Some(PathBuf::from(&args[i + 1])); i += 1; }
             p => opts.prop = p.to_string(),
         }
@@ -37,6 +38,11 @@ fn main() {
             let mut sink = cases::CaseSink::new("C12", "Corr.C12", &opts.out, 400);
             props::c12::generate(&opts, &mut sink);
             sink.finish(props::c12::RULE, serde_json::json!({}));
+        }
+        "C15" => {
+            let mut sink = cases::CaseSink::new("C15", "Corr.C15 Proofs.SrcSpec Model.SrcRange", &opts.out, 500);
+            props::c15::generate(&opts, &mut sink);
+            sink.finish(props::c15::RULE, serde_json::json!({}));
         }
         p => {
             eprintln!("unknown property {p}");
